@@ -67,17 +67,29 @@ func (j *JApi) ToJsonIndent() ([]byte, error) {
 }
 
 func (j *JApi) ToOpenAPIJson() ([]byte, error) {
-	o, err := openapi.NewOpenAPI(j.Catalog())
-	if err != nil {
-		return nil, err
-	}
-	return json.Marshal(o)
+	return toOpenAPIPanicFree(j.Catalog(), json.Marshal)
 }
 
 func (j *JApi) ToOpenAPIJsonIndent() ([]byte, error) {
-	o, err := openapi.NewOpenAPI(j.Catalog())
-	if err != nil {
-		return nil, err
+	return toOpenAPIPanicFree(j.Catalog(), func(v any) ([]byte, error) {
+		return json.MarshalIndent(v, "", "  ")
+	})
+}
+
+// toOpenAPIPanicFree converts the catalog to the OpenAPI document and marshals it.
+// The converter might panic on schemas that it cannot represent, such a panic
+// is returned as an ordinary error.
+func toOpenAPIPanicFree(c *catalog.Catalog, marshal func(any) ([]byte, error)) (b []byte, err error) {
+	defer func() {
+		if r := recover(); r != nil {
+			b = nil
+			err = fmt.Errorf("unable to convert to OpenAPI: %v", r)
+		}
+	}()
+
+	o, oaErr := openapi.NewOpenAPI(c)
+	if oaErr != nil {
+		return nil, oaErr
 	}
-	return json.MarshalIndent(o, "", "  ")
+	return marshal(o)
 }
